@@ -400,3 +400,16 @@ Qed.
 Theorem run_blocks_budget : forall d, bud_pb (run_blocks d).
 Proof. induction d as [|d IH]; [intros bs c s; apply bud_refl | cbn [run_blocks]; apply walk_bud; exact IH]. Qed.
 Print Assumptions run_blocks_budget.
+
+(* an include line naming a file that is being processed (whatever the spelling of its path) does not re-enter the loop:
+   for ANY recursive entry pb the result is the same, namely the control state unchanged and a diagnostic *)
+Theorem include_cycle_is_refused pb c s o s1 a0 ar name s3 path :
+  parse_opts specOptIncludeFile (args s) s = (o, s1) -> opt "f" o = None -> po_args o = a0 :: ar ->
+  inlines_text a0 s1 = (name, s3) -> flag "as-is" o = false ->
+  search_inc_file name c = (path, true) ->
+  existsb (str_eqb (PathClean.clean path)) (incstack c) = true ->
+  macro_include pb (c, s) = (c, if process s3 then err "recursive inclusion" s3 else s3).
+Proof.
+  intros Ho Hf Ha Hn Has Hs Hcyc. unfold macro_include. rewrite Ho, Hf, Ha, Hn, Has, Hs. cbn [negb]. rewrite Hcyc. reflexivity.
+Qed.
+Print Assumptions include_cycle_is_refused.
